@@ -398,7 +398,8 @@ class FuncFacts:
         if isinstance(e, ast.UnaryOp) and isinstance(e.op, ast.Not):
             return FuncFacts._pure_predicate(e.operand)
         if isinstance(e, ast.Compare):
-            return all(isinstance(o, (ast.Is, ast.IsNot, ast.Eq, ast.NotEq)) for o in e.ops) and all(isinstance(x, (ast.Name, ast.Constant)) for x in [e.left] + e.comparators)
+            # (``x in mapping`` asks the mapping: pure for the containers of this code base -- dicts, lists, port namespaces)
+            return all(isinstance(o, (ast.Is, ast.IsNot, ast.Eq, ast.NotEq, ast.In, ast.NotIn)) for o in e.ops) and all(isinstance(x, (ast.Name, ast.Constant)) for x in [e.left] + e.comparators)
         if isinstance(e, ast.Call) and isinstance(e.func, ast.Name) and e.func.id == 'isinstance' and len(e.args) == 2 and not e.keywords:
             return isinstance(e.args[0], ast.Name)
         return False
